@@ -1,11 +1,11 @@
 #!/bin/bash
-# tools/confirm_seed2.sh <worktree> <ID> <variant> [patchfile] : independently confirm a round-2 seeded change kept in
-# /tmp/wt2/keep/<ID>/<variant>/ using the scratch worktree <worktree> (a detached worktree of /repo at HEAD):
+# tools/confirm_seed2.sh <worktree> <ID> <variant> [patchfile] : independently confirm a round-N seeded change kept in
+# $KEEP/<ID>/<variant>/ (default /tmp/wt2/keep, ROUND=2; round 3: KEEP=/tmp/wt3/keep ROUND=3) using the scratch worktree <worktree> (a detached worktree of /repo at HEAD):
 # patch applies, release binary builds, demo FAILs with / PASSes without, pinned suite has regressions=0.
 # Writes /verif/seeded/<ID>-2<variant>/{patch.diff,demo.*,notes.md,confirm.log,meta.json}; leaves the worktree pristine.
 set -u
-wt="$1"; id="$2"; var="$3"; src=/tmp/wt2/keep/$id/$var; pf="${4:-$src/patch.diff}"
-dst=/verif/seeded/$id-2$var
+wt="$1"; id="$2"; var="$3"; KEEP="${KEEP:-/tmp/wt2/keep}"; ROUND="${ROUND:-2}"; src=$KEEP/$id/$var; pf="${4:-$src/patch.diff}"
+dst=/verif/seeded/$id-$ROUND$var
 mkdir -p "$dst"; log="$dst/confirm.log"; : > "$log"
 cd "$wt" || exit 2
 git checkout -q -- . ; git clean -fdq src 2>/dev/null
@@ -17,7 +17,7 @@ if [ ! -x "$wt/s4.pristine" ]; then
   cp target/release/s4 "$wt/s4.pristine"
 fi
 echo "== demo on pristine" >> "$log"; run_demo "$wt/s4.pristine" >> "$log" 2>&1; rc_p=$?
-git apply "$pf" >> "$log" 2>&1 || { echo "patch does not apply" >> "$log"; echo "confirm $id-2$var: PATCH DOES NOT APPLY"; exit 2; }
+git apply "$pf" >> "$log" 2>&1 || { echo "patch does not apply" >> "$log"; echo "confirm $id-$ROUND$var: PATCH DOES NOT APPLY"; exit 2; }
 echo "== patched build" >> "$log"; CARGO_NET_OFFLINE=true $BUILD >> "$log" 2>&1; rc_b=$?
 cp target/release/s4 "$wt/s4.patched"
 rc_m=0
@@ -25,18 +25,18 @@ for k in 1 2 3; do
   echo "== demo on patched (attempt $k)" >> "$log"; run_demo "$wt/s4.patched" >> "$log" 2>&1; rc_m=$?
   [ "$rc_m" != "0" ] && break
 done
-echo "== suite on patched" >> "$log"; python3 /tmp/wt2/tools/run_suite.py "$wt" >> "$log" 2>&1; rc_s=$?
-suite_line=$(grep "^SUITE:" "$log" | tail -1)
-case "$suite_line" in *"regressions=0"*) ;; *) echo "== suite on patched (second run)" >> "$log"; python3 /tmp/wt2/tools/run_suite.py "$wt" >> "$log" 2>&1; rc_s=$?; suite_line=$(grep "^SUITE:" "$log" | tail -1);; esac
+echo "== suite on patched" >> "$log"; python3 /verif/tools/run_suite.py "$wt" >> "$log" 2>&1; rc_s=$?
+suite_line=$(grep -a "^SUITE:" "$log" | tail -1)
+case "$suite_line" in *"regressions=0"*) ;; *) echo "== suite on patched (second run)" >> "$log"; python3 /verif/tools/run_suite.py "$wt" >> "$log" 2>&1; rc_s=$?; suite_line=$(grep -a "^SUITE:" "$log" | tail -1);; esac
 git checkout -q -- . ; git clean -fdq src 2>/dev/null
 cp "$pf" "$dst/patch.diff"; cp "$demo" "$dst/"; cp "$src/notes.md" "$dst/notes.md" 2>/dev/null
-python3 - "$id" "$var" "$rc_p" "$rc_b" "$rc_m" "$rc_s" "$suite_line" "$(basename $demo)" > "$dst/meta.json" <<'PY'
+python3 - "$id" "$ROUND$var" "$rc_p" "$rc_b" "$rc_m" "$rc_s" "$suite_line" "$(basename $demo)" "$ROUND" > "$dst/meta.json" <<'PY'
 import json,sys
-id,var,rc_p,rc_b,rc_m,rc_s,suite,demo=sys.argv[1:9]
+id,var,rc_p,rc_b,rc_m,rc_s,suite,demo,rnd=sys.argv[1:10]
 ok = rc_p=="0" and rc_b=="0" and rc_m!="0" and rc_s=="0" and "regressions=0" in suite
-print(json.dumps({"property":id,"variant":"2"+var,"round":2,"demo":demo,
+print(json.dumps({"property":id,"variant":var,"round":int(rnd),"demo":demo,
  "confirmed": ok,
  "what_i_ran":{"demo_on_pristine_exit":int(rc_p),"patched_build_exit":int(rc_b),"demo_on_patched_exit":int(rc_m),"suite_exit":int(rc_s),"suite_line":suite},
  "needs_to_manifest":"see notes.md","detected_by":[]},indent=1))
 PY
-echo "confirm $id-2$var: pristine_demo=$rc_p build=$rc_b patched_demo=$rc_m suite=$rc_s [$suite_line]"
+echo "confirm $id-$ROUND$var: pristine_demo=$rc_p build=$rc_b patched_demo=$rc_m suite=$rc_s [$suite_line]"
